@@ -334,8 +334,53 @@ func c02TreeRun(w *run.Worker, d dctx, k int, natoms int) {
 	}
 }
 
+// c02Mutating: left-to-right evaluation when one operand's evaluation (a grok capture) rewrites the key
+// the other operand reads: the earlier operand sees the old value, the later one the new value.
+func c02Mutating(w *run.Worker) {
+	S, Id := rt.Str, rt.Id
+	g := func() *rt.Node { return rt.Call("grok", Id("_"), S("%{NUMBER:f1:int}")) }
+	for _, op := range []string{"+", "-", "*", "==", "<", "&&", "||"} {
+		for _, swap := range []bool{false, true} {
+			for _, form := range []string{"bin", "asg", "nested"} {
+				if !w.Take() {
+					continue
+				}
+				l, r := Id("f1"), g()
+				if swap {
+					l, r = g(), Id("f1")
+				}
+				var body []*rt.Node
+				switch form {
+				case "bin":
+					body = []*rt.Node{rt.Call("p", rt.Normalize(rt.Bin(op, l, r)), Id("f1"))}
+				case "asg":
+					if op == "==" || op == "<" || op == "&&" || op == "||" {
+						continue
+					}
+					body = []*rt.Node{rt.Assign("=", Id("z"), rt.Int(10)), rt.Assign(op+"=", Id("z"), rt.Normalize(rt.Bin("+", l, r))), rt.Call("p", Id("z"), Id("f1"))}
+				case "nested":
+					body = []*rt.Node{rt.Call("p", rt.Normalize(rt.Bin(op, rt.Bin("+", l, rt.Int(0)), rt.Bin("+", r, rt.Int(0)))), rt.List(l, r))}
+				}
+				p := &Prog{Scripts: map[string][]*rt.Node{"s.p": body}, Main: "s.p", Extract: true,
+					Point: PointSpec{Meas: "m", Fields: map[string]any{"message": "42", "f1": int64(1)}}}
+				w.Eval()
+				v := Differential(p)
+				w.Outcome(v.Outcome)
+				if v.Skipped != "" {
+					w.Note("unspecified_cells_skipped", 1)
+					continue
+				}
+				if !v.OK {
+					w.Violate("C02:mutating-operand:"+op+":"+c02Class(v), v.What, c02Case{Form: "mutating", Op: op, Src_: p.Sources()["s.p"]})
+				}
+			}
+		}
+	}
+}
+
 func c02Run(w *run.Worker) {
 	vals := c02Values()
+	c02Mutating(w)
 	// (A) the complete operator table
 	for src := srcLit; src <= srcRetyped; src++ {
 		for _, op := range c02BinOps {
@@ -388,6 +433,14 @@ func c02Replay(raw json.RawMessage) (bool, string) {
 	if c.Form == "tree" {
 		return replaySource(c.Tree, PointSpec{Meas: "m"})
 	}
+	if c.Form == "mutating" {
+		tree, err := parseToTree("s.p", c.Src_)
+		if err != nil {
+			return false, err.Error()
+		}
+		v := Differential(&Prog{Scripts: map[string][]*rt.Node{"s.p": tree}, Main: "s.p", Extract: true, Point: PointSpec{Meas: "m", Fields: map[string]any{"message": "42", "f1": int64(1)}}})
+		return !v.OK && v.Skipped == "", v.What
+	}
 	p, expectLoadErr, ok := c02Build(c, c02Values())
 	if !ok {
 		return false, "cell not representable"
@@ -405,7 +458,7 @@ func init() {
 		Level: "model_checking",
 		Rule: "(A) every operator (14 binary incl. in/&&/||, 5 compound assignments on a variable, a list element and a nested map element, 3 unary) x every ordered pair of a 33-value set covering all operand classes (incl. the floats +-2^63 next to the int64 extremes) " +
 			"x operand source {literal, variable, point field, point field that held another type and was overwritten by add_key}; (B) every expression tree with <=2 (quick; 3 with 2 atoms) / <=3 (thorough, 6 atoms) binary operators over 8 atoms with every leaf wrapped in the probe; " +
-			"each program is run on the real engine and on the reference interpreter; distinct = distinct real outcomes (trace, point, error flag)",
+			"(C) operands whose evaluation (a grok capture) rewrites the key the other operand reads, on either side of 7 operators, plain, compound and nested; each program is run on the real engine and on the reference interpreter; distinct = distinct real outcomes (trace, point, error flag)",
 		Assumptions: []string{
 			"pinned cells (bool acts as 0/1, deep equality of collections, RHS of an assignment evaluated before index keys) follow the repository's tests and both interpreters",
 			"unspecified cells (DESIGN.md section 5) are skipped and counted",
